@@ -8,6 +8,8 @@ import (
 	"go/types"
 	"sort"
 	"strings"
+
+	"golang.org/x/tools/go/ssa"
 )
 
 func init() {
@@ -352,6 +354,137 @@ func ruleDateZone(c *Ctx, r *R) {
 			r.check(nLocal == 0, name, c.Pos(fn.Pos()), "reads the UTC time value", fmt.Sprintf("Date.prototype.%s converts the time value with Local(): a UTC getter must report the field in UTC (§15.9.5)", name))
 		} else {
 			r.check(nLocal > 0, name, c.Pos(fn.Pos()), "converts to local time", fmt.Sprintf("Date.prototype.%s never converts the time value with Local(): a local-time getter must report LocalTime(t) (§15.9.5); the results agree only while the host zone is UTC", name))
+		}
+	}
+}
+
+func init() {
+	register(&Rule{ID: "DATE-repr", Props: []string{"C12"}, Min: 2,
+		Doc: "P (representation invariant): a dateObject keeps one time value in four fields - time, epoch, value and the isNaN flag that every accessor branches on (DATE-nan). Every method of *dateObject that writes one of them writes all four on every path to its return: a setter that updates the epoch but leaves isNaN as it was turns an invalid date into a date that still reads as invalid (`d = new Date(NaN); d.setTime(0); d.getTime()` is NaN) - or the reverse",
+		Run: ruleDateRepr})
+}
+
+func ruleDateRepr(c *Ctx, r *R) {
+	dt := c.LookupType("", "dateObject")
+	if dt == nil {
+		r.undecided("unresolved:dateObject", "-", "UNRESOLVED: type dateObject")
+		return
+	}
+	st, ok := dt.Underlying().(*types.Struct)
+	if !ok {
+		return
+	}
+	var fields []string
+	for i := 0; i < st.NumFields(); i++ {
+		fields = append(fields, st.Field(i).Name())
+	}
+	sort.Strings(fields)
+	for _, fn := range c.AllSrcFuncs("") {
+		if fn.Parent() != nil || fn.Signature.Recv() == nil || !typeIs(fn.Signature.Recv().Type(), ottoPath, "dateObject") {
+			continue
+		}
+		if _, isPtr := fn.Signature.Recv().Type().(*types.Pointer); !isPtr {
+			continue
+		}
+		storesIn := func(b *ssa.BasicBlock) map[string]bool {
+			out := map[string]bool{}
+			for _, ins := range b.Instrs {
+				switch x := ins.(type) {
+				case *ssa.Store:
+					if nt, f := fieldOfAddr(x.Addr); nt != nil && nt.Obj().Name() == "dateObject" {
+						if fa := x.Addr.(*ssa.FieldAddr); fa.X == ssa.Value(fn.Params[0]) {
+							out[f.Name()] = true
+						}
+					}
+				case *ssa.Call:
+					// delegation to another method of the same receiver that itself writes all fields is credited below
+					if callee := x.Call.StaticCallee(); callee != nil && callee.Signature.Recv() != nil && typeIs(callee.Signature.Recv().Type(), ottoPath, "dateObject") && len(x.Call.Args) > 0 && x.Call.Args[0] == ssa.Value(fn.Params[0]) {
+						out["call:"+callee.Name()] = true
+					}
+				}
+			}
+			return out
+		}
+		writes := false
+		for _, b := range fn.Blocks {
+			if len(storesIn(b)) > 0 {
+				writes = true
+			}
+		}
+		if !writes {
+			continue
+		}
+		// must-store sets: intersection over predecessors
+		must := map[*ssa.BasicBlock]map[string]bool{}
+		all := map[string]bool{}
+		for _, f := range fields {
+			all[f] = true
+		}
+		for _, b := range fn.Blocks {
+			must[b] = nil // nil = top (all)
+		}
+		changed := true
+		for changed {
+			changed = false
+			for _, b := range fn.Blocks {
+				var in map[string]bool
+				if b == fn.Blocks[0] {
+					in = map[string]bool{}
+				} else {
+					first := true
+					for _, p := range b.Preds {
+						if must[p] == nil {
+							continue // top
+						}
+						if first {
+							in = map[string]bool{}
+							for k := range must[p] {
+								in[k] = true
+							}
+							first = false
+						} else {
+							for k := range in {
+								if !must[p][k] {
+									delete(in, k)
+								}
+							}
+						}
+					}
+					if first {
+						continue // all preds still top
+					}
+				}
+				for k := range storesIn(b) {
+					in[k] = true
+				}
+				if must[b] == nil || len(must[b]) != len(in) {
+					must[b] = in
+					changed = true
+				}
+			}
+		}
+		for _, b := range fn.Blocks {
+			ret, ok := b.Instrs[len(b.Instrs)-1].(*ssa.Return)
+			if !ok {
+				continue
+			}
+			got := must[b]
+			delegated := false
+			for k := range got {
+				if strings.HasPrefix(k, "call:") {
+					delegated = true // e.g. SetTime -> Set: the callee's own obligation covers the fields
+				}
+			}
+			var missing []string
+			if !delegated {
+				for _, f := range fields {
+					if !got[f] {
+						missing = append(missing, f)
+					}
+				}
+			}
+			key := ssaFuncName(fn)
+			r.check(len(missing) == 0, key, c.Pos(instrPos(ret)), "all representation fields written on this path", fmt.Sprintf("%s writes the time value but on the path to this return leaves %s as they were: the four fields of a dateObject describe one value and the accessors branch on isNaN, so a date changed through this path reports its old validity", key, strings.Join(missing, ", ")))
 		}
 	}
 }
